@@ -97,6 +97,19 @@ M = [
   "                        val = buf[i];\n                }\n\n                if (print_format_num(self, \"%02X\", val, fsm) != 0)", "                        val = buf[i];\n                }\n\n                if (print_format_num(self, \"%02X\", (uint32_t)(int32_t)(int8_t)val, fsm) != 0)"),
  ("m-c07-escape", "C07", "double quote not escaped when formatting a string",
   "                } else if (ch == '\"') {\n                        if (print_string_to_buf(self, \"\\\\\\\"\", fsm) != 0)\n                                return -1;", "                } else if (ch == '\"') {\n                        if (print_string_to_buf(self, \"\\\"\", fsm) != 0)\n                                return -1;"),
+ # integer-width narrowing ("save RAM on a small MCU"); last element: file the pattern is in
+ ("m-w-index8", "C02", "cat_object.index narrowed to uint8_t (tables beyond 255 commands)",
+  "        size_t index; /* index used to iterate over commands and variables */\n        size_t partial_cntr;", "        uint8_t index; /* index used to iterate over commands and variables */\n        size_t partial_cntr;", "src/cat.h"),
+ ("m-w-length8", "C06", "cat_object.length narrowed to uint8_t (arguments beyond 255 bytes)",
+  "        size_t length; /* length of input command name and command arguments */", "        uint8_t length; /* length of input command name and command arguments */", "src/cat.h"),
+ ("m-w-cmdnum8", "C02", "cat_object.commands_num narrowed to uint8_t",
+  "        size_t commands_num; /* computed total number of registered commands */", "        uint8_t commands_num; /* computed total number of registered commands */", "src/cat.h"),
+ ("m-w-bufsize16", "C06", "get_atcmd_buf_size returns uint16_t (buffers beyond 64 KiB)",
+  "static inline size_t get_atcmd_buf_size(struct cat_object *self)", "static inline uint16_t get_atcmd_buf_size(struct cat_object *self)"),
+ ("m-w-left8", "C19", "get_left_buffer_space_by_fsm returns uint8_t (responses beyond 255 bytes)",
+  "static size_t get_left_buffer_space_by_fsm(struct cat_object *self, cat_fsm_type fsm)", "static uint8_t get_left_buffer_space_by_fsm(struct cat_object *self, cat_fsm_type fsm)"),
+ ("m-w-items8", "C13", "event ring items_count narrowed to uint8_t (equivalent: capacity <= 8)",
+  "        size_t unsolicited_cmd_buffer_items_count; /* number of unsolicited cmd in buffer */", "        uint8_t unsolicited_cmd_buffer_items_count; /* number of unsolicited cmd in buffer */", "src/cat.h"),
 ]
 
 
@@ -107,7 +120,9 @@ def sh(cmd, cwd=None, env=None):
 def main():
     want = set(sys.argv[1:])
     rows = []
-    for mid, prop, desc, old, new in M:
+    for ent in M:
+        mid, prop, desc, old, new = ent[:5]
+        relpath = ent[5] if len(ent) > 5 else "src/cat.c"
         if want and mid not in want:
             continue
         wt = "/tmp/st-%s-%d" % (mid, os.getpid())
@@ -115,7 +130,7 @@ def main():
             rows.append((mid, prop, desc, "worktree failed", "-", "-"))
             continue
         try:
-            path = os.path.join(wt, "src/cat.c")
+            path = os.path.join(wt, relpath)
             src = open(path).read()
             if src.count(old) != 1:
                 rows.append((mid, prop, desc, "pattern matches %d times" % src.count(old), "-", "-"))
